@@ -27,5 +27,8 @@ RecOK == ri > 0 =>
             /\ Is(r.out2, AlignLinear2(r.a, r.b, r.g2), "phase_align.same_function_of_phase_for_every_cycle_length")
       [] r.kind = "alignf" ->      \* smooth non-linear function of phase: within the interpolation-error bound (harness)
             Is(r.within_bound, 1, "phase_align.within_interpolation_error")
+      [] r.kind = "forms" ->       \* the cycles argument as label vector / container / iterator (created with any mode)
+            /\ Is(r.ref_raised, 0, "cycles_argument.container_form_is_accepted")
+            /\ Is(r.same, 1, "cycles_argument.mode_argument_governs_for_every_form")
       [] OTHER -> Bad("unknown record kind")
 =============================================================================
